@@ -27,6 +27,8 @@ type bounds struct {
 	fd      *ast.FuncDecl
 	assigns map[types.Object][]ast.Expr // every value assigned (nil entry: not an expression of its own — ++, range binding, tuple assignment)
 	anodes  map[types.Object][]ast.Node // the assigning statements, same order
+	// bind: what the creator of this body bound its function-typed parameters to (fnflow.go)
+	bind map[types.Object]fnRef
 }
 
 func newBounds(prog *load.Program, info *types.Info, fd *ast.FuncDecl) *bounds {
@@ -94,6 +96,19 @@ func (b *bounds) singleDef(e ast.Expr) (ast.Expr, bool) {
 		return nil, false
 	}
 	as := b.assigns[o]
+	if len(as) == 2 && as[0] == nil && as[1] != nil {
+		// `var x T` followed by one assignment that is a statement of the function body itself: read
+		// after that statement the variable holds what was assigned
+		if vs, ok := b.anodes[o][0].(*ast.ValueSpec); ok && len(vs.Values) == 0 {
+			if st, ok := b.anodes[o][1].(*ast.AssignStmt); ok && st.Tok == token.ASSIGN && id.Pos() > st.End() {
+				for _, top := range b.fd.Body.List {
+					if top == ast.Stmt(st) {
+						return as[1], true
+					}
+				}
+			}
+		}
+	}
 	if len(as) != 1 || as[0] == nil {
 		return nil, false
 	}
@@ -880,6 +895,14 @@ func (b *bounds) indexOK(f *cfgx.Func, x *ast.IndexExpr, loops []ast.Stmt) (bool
 		if n, why := b.minLen(x.X); n > c {
 			return true, why
 		}
+		// the indexed value is a local standing for an expression whose length a guard tests
+		// (errs := pkgs[0].Errors under `case len(pkgs[0].Errors) > 1`)
+		if d, ok := b.defExpr(x.X); ok {
+			target := types.ExprString(ast.Unparen(d))
+			if !reachable(f, x, lenOracleIn(b.info, b.fd, target, c)) {
+				return true, fmt.Sprintf("unreachable when len(%s) <= %d, and %s is that value (dominating length guard)", target, c, types.ExprString(x.X))
+			}
+		}
 		return false, ""
 	}
 	// x[len(x)-c] is handled by lastElemOK; here: variables
@@ -898,6 +921,9 @@ func (b *bounds) indexOK(f *cfgx.Func, x *ast.IndexExpr, loops []ast.Stmt) (bool
 		}
 	}
 	if ok, why := b.counterFill(x, v, loops); ok {
+		return true, why
+	}
+	if ok, why := b.rangeGuarded(f, x, v); ok {
 		return true, why
 	}
 	if ok, why := b.searchResult(f, x, v); ok {
@@ -990,7 +1016,14 @@ func (b *bounds) searchCall(e ast.Expr) (string, bool) {
 	}
 	d := b.prog.Decl(fn.Origin())
 	sel, isSel := ast.Unparen(call.Fun).(*ast.SelectorExpr)
-	if d == nil || d.Body == nil || len(d.Body.List) != 1 || d.Recv == nil || len(d.Recv.List) != 1 || len(d.Recv.List[0].Names) != 1 || !isSel {
+	if d == nil || d.Body == nil || d.Recv == nil || len(d.Recv.List) != 1 || len(d.Recv.List[0].Names) != 1 || !isSel {
+		return "", false
+	}
+	// a hand-written search: every return gives a negative constant or the key of a range over recv.field
+	if field, ok := loopSearchField(b.prog.Info(fn.Pkg()), d); ok {
+		return b.norm(sel.X) + "." + field, true
+	}
+	if len(d.Body.List) != 1 {
 		return "", false
 	}
 	rs, ok := d.Body.List[0].(*ast.ReturnStmt)
@@ -1163,6 +1196,140 @@ func (b *bounds) accessorOK(call *ast.CallExpr, sel *ast.SelectorExpr, bound str
 			if u == want {
 				return true, "the loop keeps 0 <= " + id.Name + " < " + want
 			}
+		}
+	}
+	if ok, why := b.callbackIndex(call, v, want); ok {
+		return true, why
+	}
+	return false, ""
+}
+
+// callbackIndex: the index is the parameter of a function literal that is handed, together with the
+// matching count, to a moq helper which calls it only with 0 <= i < count (collect(n, func(i int) T {..})).
+func (b *bounds) callbackIndex(site ast.Node, v types.Object, want string) (bool, string) {
+	var lit *ast.FuncLit
+	pi := -1
+	ast.Inspect(b.fd, func(n ast.Node) bool {
+		fl, ok := n.(*ast.FuncLit)
+		if !ok || !within(fl, site) || fl.Type.Params == nil {
+			return true
+		}
+		k := 0
+		for _, f := range fl.Type.Params.List {
+			for _, nm := range f.Names {
+				if b.info.Defs[nm] == v {
+					lit, pi = fl, k
+				}
+				k++
+			}
+		}
+		return true
+	})
+	if lit == nil || pi != 0 || len(b.assigns[v]) != 0 {
+		return false, ""
+	}
+	var outer *ast.CallExpr
+	q := -1
+	ast.Inspect(b.fd, func(n ast.Node) bool {
+		c, ok := n.(*ast.CallExpr)
+		if !ok {
+			return true
+		}
+		for i, a := range c.Args {
+			if ast.Unparen(a) == ast.Expr(lit) {
+				outer, q = c, i
+			}
+		}
+		return true
+	})
+	if outer == nil {
+		return false, ""
+	}
+	h, _ := typeutil.Callee(b.info, outer).(*types.Func)
+	if h == nil || !b.prog.IsMoqPkg(h.Pkg()) {
+		return false, ""
+	}
+	d := b.prog.Decl(h.Origin())
+	hinfo := b.prog.Info(h.Pkg())
+	if d == nil || d.Body == nil || d.Type.Params == nil {
+		return false, ""
+	}
+	var params []types.Object
+	for _, f := range d.Type.Params.List {
+		for _, nm := range f.Names {
+			params = append(params, hinfo.Defs[nm])
+		}
+	}
+	if q >= len(params) {
+		return false, ""
+	}
+	hb := newBounds(b.prog, hinfo, d)
+	// every call of the callback parameter inside the helper: its argument is a loop variable below one of
+	// the helper's int parameters; collect which
+	countParam := -1
+	okAll, n := true, 0
+	var walk func(nd ast.Node, loops []ast.Stmt)
+	walk = func(nd ast.Node, loops []ast.Stmt) {
+		ast.Inspect(nd, func(x ast.Node) bool {
+			switch y := x.(type) {
+			case *ast.ForStmt:
+				if y != nd {
+					walk(y.Body, append(append([]ast.Stmt{}, loops...), y))
+					return false
+				}
+			case *ast.RangeStmt:
+				if y != nd {
+					walk(y.Body, append(append([]ast.Stmt{}, loops...), y))
+					return false
+				}
+			case *ast.CallExpr:
+				fid, ok := ast.Unparen(y.Fun).(*ast.Ident)
+				if !ok || hinfo.ObjectOf(fid) != params[q] {
+					return true
+				}
+				n++
+				if len(y.Args) != 1 {
+					okAll = false
+					return true
+				}
+				aid, ok := ast.Unparen(y.Args[0]).(*ast.Ident)
+				if !ok {
+					okAll = false
+					return true
+				}
+				lv, ok := hb.loopBound(hinfo.ObjectOf(aid), loops)
+				if !ok || !lv.nonneg {
+					okAll = false
+					return true
+				}
+				hit := -1
+				for pidx, po := range params {
+					if po == nil {
+						continue
+					}
+					term := fmt.Sprintf("%s@%d", po.Name(), po.Pos())
+					for _, u := range lv.upper {
+						if u == term {
+							hit = pidx
+						}
+					}
+				}
+				if hit < 0 || (countParam >= 0 && countParam != hit) {
+					okAll = false
+					return true
+				}
+				countParam = hit
+			}
+			return true
+		})
+	}
+	walk(d.Body, nil)
+	if !okAll || n == 0 || countParam < 0 || countParam >= len(outer.Args) {
+		return false, ""
+	}
+	for _, t := range b.lenAlternatives(outer.Args[countParam]) {
+		if t == want {
+			return true, fmt.Sprintf("the index is the argument %s passes to this function literal: always below its count parameter, which this call sets to %s", load.FuncName(h), want)
 		}
 	}
 	return false, ""
@@ -1412,6 +1579,16 @@ func (b *bounds) lastElemOK(f *cfgx.Func, x *ast.IndexExpr) (bool, string) {
 					}
 				}
 			}
+			// ... or by a function literal bound to a local
+			if id, ok := ast.Unparen(call.Fun).(*ast.Ident); ok {
+				if lit := boundFuncLit(b.info, b.fd, id); lit != nil {
+					for i, a := range call.Args {
+						if b.norm(a) == st+".Params()" && resultLenIsParamLenBody(b.prog, b.info, lit.Type, lit.Body, i) {
+							return true, "only reached for a variadic signature (at least one parameter), and the local function " + id.Name + " returns one element per element of the tuple"
+						}
+					}
+				}
+			}
 		}
 	}
 	return false, ""
@@ -1423,13 +1600,28 @@ func resultLenIsParamLen(prog *load.Program, fn *types.Func, i int) bool {
 	if d == nil || d.Body == nil {
 		return false
 	}
-	info := prog.Info(fn.Pkg())
+	return resultLenIsParamLenBody(prog, prog.Info(fn.Pkg()), d.Type, d.Body, i)
+}
+
+// resultLenIsParamLenBody: the same for any function body (a declared function or a function literal).
+func resultLenIsParamLenBody(prog *load.Program, info *types.Info, ftype *ast.FuncType, body *ast.BlockStmt, i int) bool {
+	d := &ast.FuncDecl{Name: ast.NewIdent("lit"), Type: ftype, Body: body}
 	cb := newBounds(prog, info, d)
-	sig := fn.Type().(*types.Signature)
-	if i >= sig.Params().Len() {
+	var pname *types.Var
+	k := 0
+	if ftype.Params != nil {
+		for _, f := range ftype.Params.List {
+			for _, nm := range f.Names {
+				if k == i {
+					pname, _ = info.Defs[nm].(*types.Var)
+				}
+				k++
+			}
+		}
+	}
+	if pname == nil {
 		return false
 	}
-	pname := sig.Params().At(i)
 	ok := false
 	bad := false
 	ast.Inspect(d.Body, func(n ast.Node) bool {
@@ -1788,12 +1980,27 @@ func (b *bounds) tailSlice(x *ast.SliceExpr) (bool, string) {
 						nonNegL = true
 					}
 				}
-				// len(x) > n, len(x) >= n, n < len(x) ...
-				if (cb.Op == token.GTR || cb.Op == token.GEQ) && b.norm(cb.X) == b.norm(be.X) && b.norm(cb.Y) == b.norm(be.Y) {
-					nonNegL = true
+				// len(x) > n, len(x) >= n, n < len(x) ... (n itself, or the a of a subtrahend max(a, 0):
+				// a <= len(x) and 0 <= len(x) give max(a, 0) <= len(x))
+				subs := []string{b.norm(be.Y)}
+				if mc, ok := b.unfold(be.Y).(*ast.CallExpr); ok && len(mc.Args) == 2 {
+					if id, ok := ast.Unparen(mc.Fun).(*ast.Ident); ok {
+						if bi, ok := b.info.Uses[id].(*types.Builtin); ok && bi.Name() == "max" {
+							for i, a := range mc.Args {
+								if c, ok := b.constInt(a); ok && c == 0 {
+									subs = append(subs, b.norm(mc.Args[1-i]))
+								}
+							}
+						}
+					}
 				}
-				if (cb.Op == token.LSS || cb.Op == token.LEQ) && b.norm(cb.Y) == b.norm(be.X) && b.norm(cb.X) == b.norm(be.Y) {
-					nonNegL = true
+				for _, sub := range subs {
+					if (cb.Op == token.GTR || cb.Op == token.GEQ) && b.norm(cb.X) == b.norm(be.X) && b.norm(cb.Y) == sub {
+						nonNegL = true
+					}
+					if (cb.Op == token.LSS || cb.Op == token.LEQ) && b.norm(cb.Y) == b.norm(be.X) && b.norm(cb.X) == sub {
+						nonNegL = true
+					}
 				}
 			}
 		}
@@ -1819,6 +2026,18 @@ func (b *bounds) upperTermsIncl(e ast.Expr) []string {
 func (b *bounds) sliceMore(f *cfgx.Func, x *ast.SliceExpr) (bool, string) {
 	if ok, why := b.tailSlice(x); ok {
 		return true, why
+	}
+	// x[:H] with 0 <= H <= len(x): H is a minimum that includes len(x), all of whose operands are non-negative
+	if x.Low == nil && x.High != nil && !x.Slice3 {
+		isLenOfX := false
+		for _, t := range b.upperTermsIncl(x.High) {
+			if t == "len("+b.norm(x.X)+")" {
+				isLenOfX = true
+			}
+		}
+		if isLenOfX && b.nonNeg(x.High, 0) {
+			return true, "the slice ends at a minimum that includes len(x), never negative"
+		}
 	}
 	need := int64(0)
 	constBounds := true
@@ -2053,6 +2272,20 @@ func (b *bounds) mapOriginsMade(m ast.Expr) (bool, string) {
 	for _, o := range os {
 		switch x := ast.Unparen(o.e).(type) {
 		case *ast.CompositeLit:
+		case *ast.SelectorExpr:
+			// a field: every literal of its struct initialises it
+			var efd *ast.FuncDecl
+			funcsOf(b.prog, func(pkgPath string, info *types.Info, fd *ast.FuncDecl, fn *types.Func) {
+				if info == o.info && within(fd, x) {
+					efd = fd
+				}
+			})
+			if efd == nil {
+				return false, ""
+			}
+			if ok, _ := mapNonNil(b.prog, o.info, efd, x); !ok {
+				return false, ""
+			}
 		case *ast.CallExpr:
 			id, ok := ast.Unparen(x.Fun).(*ast.Ident)
 			if !ok {
@@ -2215,7 +2448,7 @@ func staticCallsOf(prog *load.Program, fn *types.Func) []staticCall {
 // literals) that every call fills with a non-empty string. Claims in progress count as true: the
 // fact holds by induction over the call depth.
 func (b *bounds) nonEmptyString(e ast.Expr, depth int) bool {
-	if depth > 8 {
+	if depth > 16 {
 		return false
 	}
 	e = ast.Unparen(e)
@@ -2254,6 +2487,10 @@ func (b *bounds) nonEmptyString(e ast.Expr, depth int) bool {
 				}
 			}
 		}
+		// a call through a function value whose possible targets are known (a bound parameter, a table)
+		if !staticallyResolved(b.info, x) && depth < 14 {
+			return b.dynamicNonEmpty(x, false, depth+1)
+		}
 	case *ast.Ident:
 		v, _ := b.info.ObjectOf(x).(*types.Var)
 		if v == nil {
@@ -2268,6 +2505,10 @@ func (b *bounds) nonEmptyString(e ast.Expr, depth int) bool {
 					}
 					// name, ok := table[k] in the header of `if …; ok {` with a table of non-empty constants
 					if st, ok := b.anodes[v][i].(*ast.AssignStmt); ok && b.okGuardedTableLookup(st, x) {
+						continue
+					}
+					// name, ok := f(t) in the header of `if …; ok {` for a function value f with known targets
+					if st, ok := b.anodes[v][i].(*ast.AssignStmt); ok && b.okGuardedDynamicCall(st, x, depth) {
 						continue
 					}
 					return false
@@ -2625,4 +2866,197 @@ func (b *bounds) fieldTableNonEmpty(fld *types.Var) bool {
 		}
 	}
 	return okAll && found
+}
+
+// rangeGuarded: x[v] for a variable v that is never written in the function (a parameter, the receiver),
+// unreachable both when v < 0 and when v >= len(x): `if v < 0 || int(v) >= len(x) { return .. }` before it.
+func (b *bounds) rangeGuarded(f *cfgx.Func, x *ast.IndexExpr, v types.Object) (bool, string) {
+	if len(b.assigns[v]) != 0 {
+		return false, ""
+	}
+	// the indexed value is not reassigned here either
+	if xid, ok := ast.Unparen(x.X).(*ast.Ident); ok {
+		if len(b.assigns[b.info.ObjectOf(xid)]) != 0 {
+			return false, ""
+		}
+	}
+	want := b.norm(x.X)
+	isV := func(e ast.Expr) bool {
+		e = ast.Unparen(e)
+		// through a conversion to an integer type
+		if call, ok := e.(*ast.CallExpr); ok && len(call.Args) == 1 {
+			if tv, ok := b.info.Types[call.Fun]; ok && tv.IsType() {
+				e = ast.Unparen(call.Args[0])
+			}
+		}
+		id, ok := e.(*ast.Ident)
+		return ok && b.info.ObjectOf(id) == v
+	}
+	isLen := func(e ast.Expr) bool {
+		op, ok := b.lenOperand(e)
+		return ok && b.norm(op) == want
+	}
+	isZero := func(e ast.Expr) bool {
+		c, ok := b.constInt(e)
+		return ok && c == 0
+	}
+	// assumption 1: v < 0; assumption 2: v >= len(x)
+	mk := func(negative bool) func(ast.Expr) (bool, bool) {
+		return callOracleExpr(func(e ast.Expr) (bool, bool, bool) {
+			be, ok := ast.Unparen(e).(*ast.BinaryExpr)
+			if !ok {
+				return false, false, false
+			}
+			l, r, op := be.X, be.Y, be.Op
+			// normalise to v OP other
+			if !isV(l) && isV(r) {
+				l, r = r, l
+				switch op {
+				case token.LSS:
+					op = token.GTR
+				case token.GTR:
+					op = token.LSS
+				case token.LEQ:
+					op = token.GEQ
+				case token.GEQ:
+					op = token.LEQ
+				}
+			}
+			if !isV(l) {
+				return false, false, false
+			}
+			if negative && isZero(r) {
+				switch op {
+				case token.LSS:
+					return true, true, false
+				case token.GEQ:
+					return true, false, true
+				}
+			}
+			if !negative && isLen(r) {
+				switch op {
+				case token.GEQ:
+					return true, true, false
+				case token.LSS:
+					return true, false, true
+				}
+			}
+			return false, false, false
+		})
+	}
+	// an unsigned index cannot be negative
+	unsigned := false
+	if bt, ok := v.Type().Underlying().(*types.Basic); ok && bt.Info()&types.IsUnsigned != 0 {
+		unsigned = true
+	}
+	if (unsigned || !reachable(f, x, mk(true))) && !reachable(f, x, mk(false)) {
+		return true, "unreachable when the index is negative or not below len of the indexed value (dominating range guard on a variable that is never written)"
+	}
+	return false, ""
+}
+
+// okGuardedDynamicCall: `name, ok := f(..)` as the init statement of `if …; ok { … use … }` where f is a
+// function value with known targets, each giving a non-empty name whenever it says ok.
+func (b *bounds) okGuardedDynamicCall(st *ast.AssignStmt, use *ast.Ident, depth int) bool {
+	if len(st.Lhs) != 2 || len(st.Rhs) != 1 || depth > 12 {
+		return false
+	}
+	call, ok := ast.Unparen(st.Rhs[0]).(*ast.CallExpr)
+	if !ok || staticallyResolved(b.info, call) {
+		return false
+	}
+	okID, isID := ast.Unparen(st.Lhs[1]).(*ast.Ident)
+	if !isID {
+		return false
+	}
+	guarded := false
+	ast.Inspect(b.fd, func(n ast.Node) bool {
+		is, ok := n.(*ast.IfStmt)
+		if !ok || is.Init != ast.Stmt(st) {
+			return true
+		}
+		if cid, ok := ast.Unparen(is.Cond).(*ast.Ident); ok && b.info.ObjectOf(cid) == b.info.ObjectOf(okID) && within(is.Body, use) {
+			guarded = true
+		}
+		return true
+	})
+	return guarded && b.dynamicNonEmpty(call, true, depth+1)
+}
+
+// staticallyResolved: the call names a declared function, method or builtin (not a function value).
+func staticallyResolved(info *types.Info, call *ast.CallExpr) bool {
+	switch typeutil.Callee(info, call).(type) {
+	case *types.Func, *types.Builtin:
+		return true
+	}
+	return false
+}
+
+// loopSearchField: the method returns, on every path, a negative constant or the key variable of a range
+// over one field of its receiver (and that field is not written in the method): the field's name.
+func loopSearchField(info *types.Info, d *ast.FuncDecl) (string, bool) {
+	recv := info.Defs[d.Recv.List[0].Names[0]]
+	field := ""
+	keys := map[types.Object]bool{}
+	okAll := true
+	ast.Inspect(d.Body, func(n ast.Node) bool {
+		switch x := n.(type) {
+		case *ast.RangeStmt:
+			fs, ok := ast.Unparen(x.X).(*ast.SelectorExpr)
+			kid, ok2 := x.Key.(*ast.Ident)
+			if !ok || !ok2 {
+				return true
+			}
+			rid, ok := ast.Unparen(fs.X).(*ast.Ident)
+			if !ok || info.ObjectOf(rid) != recv {
+				return true
+			}
+			if _, isSlice := info.TypeOf(fs).Underlying().(*types.Slice); !isSlice {
+				return true
+			}
+			if field != "" && field != fs.Sel.Name {
+				okAll = false
+			}
+			field = fs.Sel.Name
+			keys[info.ObjectOf(kid)] = true
+		case *ast.AssignStmt:
+			for _, l := range x.Lhs {
+				if fs, ok := ast.Unparen(l).(*ast.SelectorExpr); ok {
+					if rid, ok := ast.Unparen(fs.X).(*ast.Ident); ok && info.ObjectOf(rid) == recv {
+						okAll = false
+					}
+				}
+			}
+		case *ast.FuncLit:
+			return false
+		}
+		return true
+	})
+	if field == "" || !okAll {
+		return "", false
+	}
+	n := 0
+	ast.Inspect(d.Body, func(x ast.Node) bool {
+		if _, isLit := x.(*ast.FuncLit); isLit {
+			return false
+		}
+		rs, ok := x.(*ast.ReturnStmt)
+		if !ok {
+			return true
+		}
+		n++
+		if len(rs.Results) != 1 {
+			okAll = false
+			return true
+		}
+		if c, isC := constIntOf(info, rs.Results[0]); isC && c < 0 {
+			return true
+		}
+		if id, ok := ast.Unparen(rs.Results[0]).(*ast.Ident); ok && keys[info.ObjectOf(id)] {
+			return true
+		}
+		okAll = false
+		return true
+	})
+	return field, okAll && n > 0
 }
